@@ -469,6 +469,15 @@ def _run(chk, ctx, a):
                 # an unsound proof base is an infrastructure failure of the checker, not a violation
                 raise Infra("audit failed: " + "; ".join(au["problems"][:5]))
             discharged = [t for t in obligations if t in axioms]
+            if a.tier == "thorough":
+                # independent re-check of the compiled .olean files of the property modules
+                t1 = time.time()
+                r = subprocess.run(["lake", "env", "leanchecker"] + list(chk.prop_modules), cwd=LEAN, capture_output=True, text=True, timeout=3000)
+                ctx.cov["leanchecker_s"] = round(time.time() - t1, 1)
+                ctx.cov["leanchecker_rc"] = r.returncode
+                if r.returncode != 0:
+                    broken.append(Broken("proof", "leanchecker " + " ".join(chk.prop_modules), (r.stdout + r.stderr)[-3000:]))
+                    discharged = []
     # 4-6 correspondence + oracle
     try:
         fs, bs = chk.correspondence(ctx)
